@@ -135,6 +135,39 @@ fn copy_params(p: &anstyle_parse::Params, problem: &mut Option<String>) -> Vec<V
     if v.iter().any(|g| g.is_empty()) {
         *problem = Some("empty parameter group".to_string());
     }
+    // the iterator adapters a performer may use see the same groups: nth / skip / step_by / last / count / a partly
+    // consumed iterator; Clone and Debug of the parameter list itself
+    let n = v.len();
+    if p.iter().take(80).count() != n || p.iter().take(80).last().map(|g| g.to_vec()) != v.last().cloned() {
+        *problem = Some("Params::iter().count() / last() disagree with plain iteration".to_string());
+    }
+    for j in 0..=n.min(4) {
+        if p.iter().nth(j).map(|g| g.to_vec()) != v.get(j).cloned() {
+            *problem = Some(format!("Params::iter().nth({j}) = {:?}, plain iteration gives {:?}", p.iter().nth(j), v.get(j)));
+        }
+        // (bounded: a broken iterator must not turn into an endless loop of the monitor)
+        let sk: Vec<Vec<u16>> = p.iter().skip(j).take(80).map(|g| g.to_vec()).collect();
+        if sk[..] != v[j.min(n)..] {
+            *problem = Some(format!("Params::iter().skip({j}) yields {sk:?}, plain iteration gives {:?}", &v[j.min(n)..]));
+        }
+        let mut it = p.iter();
+        for _ in 0..j {
+            it.next();
+        }
+        let (lo, hi) = it.size_hint();
+        let rest: Vec<Vec<u16>> = it.take(80).map(|g| g.to_vec()).collect();
+        if rest[..] != v[j.min(n)..] || lo > rest.iter().map(|g| g.len()).sum::<usize>().max(rest.len()) || hi.map_or(false, |h| h < rest.len()) {
+            *problem = Some(format!("Params::iter() after {j} items yields {rest:?} (size_hint ({lo},{hi:?})), expected {:?}", &v[j.min(n)..]));
+        }
+    }
+    let st: Vec<Vec<u16>> = p.iter().step_by(2).take(80).map(|g| g.to_vec()).collect();
+    if st != v.iter().step_by(2).cloned().collect::<Vec<_>>() {
+        *problem = Some(format!("Params::iter().step_by(2) yields {st:?}"));
+    }
+    let pc = p.clone();
+    if pc.iter().map(|g| g.to_vec()).collect::<Vec<_>>() != v || pc.len() != p.len() || format!("{pc:?}") != format!("{p:?}") {
+        *problem = Some("a clone of the parameter list differs from the original".to_string());
+    }
     let (lo, hi) = p.iter().size_hint();
     if lo > total || hi.map_or(false, |h| h < v.len()) {
         *problem = Some(format!("size_hint ({lo},{hi:?}) inconsistent with {} groups / {} numbers", v.len(), total));
